@@ -195,8 +195,11 @@ func enumerateA(tier string, emit func(string)) {
 
 var nameCounter int64
 
+// freshName: names come from a per-process counter but cycle through 256 values: slip never forgets a
+// defun'd name (Package.lambdas keeps the entry after Undefine, 2.6 kB per name), a redefinition replaces
+// the old entry completely, and every case undefines its function when it ends.
 func freshName() string {
-	return "c04f" + strconv.FormatInt(atomic.AddInt64(&nameCounter, 1), 10)
+	return "c04f" + strconv.FormatInt(atomic.AddInt64(&nameCounter, 1)%256, 10)
 }
 
 func parseShape(f []string) *shape {
